@@ -1,4 +1,4 @@
-"""C14 — facts of XSLTEngineImpl.cpp / DOMServices.cpp / ResultNamespacesStack.cpp / AttributeListImpl.cpp
+"""C14 — facts of XSLTEngineImpl.cpp / DOMServices.cpp / XalanNamespacesStack.cpp / AttributeListImpl.cpp
 consumed by coq/NsfixModel.v (GenNsfix.v): the literal strings the namespace fix-up compares against, the shape
 of the unique-prefix loop (prefix "ns", post-incremented counter starting at 0, loop while the candidate is
 bound), the lazily created context of addDeclaration, and the replace-by-name of the pending attribute list.
@@ -15,7 +15,8 @@ def _sq(s):
 def gen_nsfix():
     eng = read("XSLT/XSLTEngineImpl.cpp")
     dom = read("DOMSupport/DOMServices.cpp")
-    rns = read("XSLT/ResultNamespacesStack.cpp")
+    rns = read("DOMSupport/XalanNamespacesStack.cpp")
+    need(r"XalanNamespacesStack\s+m_resultNamespacesStack;", read("XSLT/XSLTEngineImpl.hpp"), "XSLTEngineImpl::m_resultNamespacesStack is a XalanNamespacesStack")
     facts = {}
     d = _sq(dom)
     for var, val in (("s_XMLString", "xml"), ("s_XMLNamespace", "xmlns"), ("s_XMLNamespaceWithSeparator", "xmlns:"),
@@ -33,9 +34,9 @@ def gen_nsfix():
                    "while(getResultNamespaceForPrefix(m_scratchString)!=0);theValue.append(m_scratchString);"),
          body, "getUniqueNamespaceValue: do { ns + counter++ } while (bound)")
     facts["unique_loop"] = "do-while, post-increment"
-    add = _sq(function_body(rns, r"ResultNamespacesStack::addDeclaration\s*\([^)]*\)\s*\{", "ResultNamespacesStack::addDeclaration"))
+    add = _sq(function_body(rns, r"XalanNamespacesStack::addDeclaration\s*\([^)]*\)\s*\{", "XalanNamespacesStack::addDeclaration"))
     need(re.escape("if(m_createNewContextStack.back()==true){++m_stackPosition;"), add, "addDeclaration creates the context lazily")
-    need(re.escape("theNewNamespace.setPrefix(thePrefix);theNewNamespace.setURI(theNamespaceURI,theLength);"), add, "addDeclaration appends (prefix, uri)")
+    need(re.escape("theCurrentEntry.addDeclaration(thePrefix,theURI,theLength);"), add, "addDeclaration appends (prefix, uri) to the current context")
     start = _sq(function_body(eng, r"XSLTEngineImpl::startElement\s*\(\s*const XalanDOMChar\*\s*name\s*\)\s*\{", "XSLTEngineImpl::startElement(name)"))
     need(re.escape("flushPending();m_resultNamespacesStack.pushContext();setPendingElementName(name);"), start,
          "startElement: flushPending, pushContext, setPendingElementName")
